@@ -22,6 +22,7 @@ BASE_WORDS = [
     b"open C:\\Windows\\System32\\calc.exe please", b"load kernel32.dll then",
 ]
 FILE_NAMES = [
+    "shell", "network", "hex",  # a keyword list may be named like anything, also like a decoder module
     "cafe\u0301", "\u2126hm.label",  # not NFC: decomposed e-acute, OHM SIGN (a name is a name, byte for byte)
     "api.one", "api.two", "malware", "Label With Space", "\u03b4.label", "UPPER", "x.string", "a", "b.c.d",
     "network.string", "caf\u00e9", "k_w", "0", "api.kernel32", "shell.cmd", ".hidden", "words.txt", "backup~",
@@ -201,6 +202,11 @@ def snippet(rng, words, depth=0):
             return p
     if k == 22:
         return b"unescape('" + b"".join(b"%%%02x" % c for c in p[:40]) + b"')"
+    if k == 23 and rng.random() < 0.5:
+        # a path with an unusual extension and, elsewhere, a bare file name with the same one
+        ext = rng.choice([b"txt", b"pdf", b"ps1", b"vbs", b"dat"])
+        return rng.choice([b"type C:\\temp\\notes." + ext + b" > out." + ext, b"readme." + ext + b" and C:\\Users\\bob\\report." + ext,
+                           b"copy \\\\server\\share\\a." + ext + b" b." + ext])
     if k == 23:
         return rng.choice([b"kernel32.dll", b"load evil_helper.dll now", b"/usr/local/bin/payload.sh", b"../opt/tool/run.bin", b"./tmp/dropper/stage2.elf"])
     if k == 24:
